@@ -63,7 +63,11 @@ theorem no_timeout_after_pop (evs1 evs2 : List Ev) (p n c : Nat)
     · rename_i c0 hl
       injection hpop with hc; subst hc
       have hc := (reach_inv evs1).idsOk _ _ hl
-      simp [outstanding, upd, hc.2.2]
+      have hid : ((final init evs1).caches c0).pfx = p ∧ ((final init evs1).caches c0).num = n := by
+        have := hc.2.1; simp only [Cache.ident, Prod.mk.injEq] at this; exact this
+      simp only [outstanding]
+      repeat' split
+      all_goals simp [upd, Cache.ident, lookup_erase, hid.1, hid.2]
   rw [hfin] at hnoadd ⊢
   exact (resolved_is_final _ evs2 c hno hnoadd).symm
 
@@ -85,7 +89,7 @@ theorem pop_after_timeout_keyerror (evs1 evs2 : List Ev) (c : Nat)
     rw [this]
     simp [lookup_erase, upd, Cache.ident]
   have hno : ¬ outstanding (final init (evs1 ++ [.fireBegin c])) c := by
-    rw [← hfin]; simp [outstanding, hshape.1]
+    rw [← hfin]; simp [outstanding, hshape.2]
   refine ⟨?_, ?_⟩
   · have := hshape.2
     simp only [Cache.ident] at this
@@ -94,41 +98,72 @@ theorem pop_after_timeout_keyerror (evs1 evs2 : List Ev) (c : Nat)
     rw [← hfin] at this
     exact this
 
-/-- outstanding ⇔ present in the identifier table under its own identity -/
-theorem outstanding_iff_registered (evs : List Ev) (c : Nat) :
-    outstanding (final init evs) c ↔
-      lookup ((final init evs).caches c).ident (final init evs).ids = some c := by
+/-- outstanding (= registered in the table) ⇔ a timer is waiting for it, as long as no shutdown of either kind has
+    happened; a waiting timer always belongs to an outstanding request -/
+theorem outstanding_iff_timer_waiting (evs : List Ev) (c : Nat) :
+    (((final init evs).caches c).task.isSome = true → outstanding (final init evs) c)
+    ∧ ((final init evs).shutdown = false →
+        (outstanding (final init evs) c ↔ ((final init evs).caches c).task.isSome = true)) := by
   have h := reach_inv evs
-  constructor
-  · intro h1; exact h.taskOk c h1
-  · intro hl; exact (h.idsOk _ _ hl).2.2
+  refine ⟨fun ht => h.taskOk c ht, fun hs => ⟨fun ho => (h.idsOk _ _ ho).2.2 hs, fun ht => h.taskOk c ht⟩⟩
 
-/-- UNIQUE IDENTITY.  While a request is outstanding under (p, n): constructing another cache for (p, n) raises
-    (`NumberCache.__init__` guard), adding ANY cache object with that identity is refused with no state change at
-    all, and two outstanding requests never share an identity. -/
+/-- UNIQUE IDENTITY.  While a request is registered under (p, n): constructing another cache for (p, n) raises
+    (`NumberCache.__init__` guard); adding ANY cache object with that identity is not answered `added` and leaves the
+    table as it is (and the whole state, unless the cache is shut down — then the refused cache's futures are
+    cancelled); and two outstanding requests never share an identity. -/
 theorem unique_identity (evs : List Ev) (p n c : Nat)
     (hout : lookup (p, n) (final init evs).ids = some c) :
     (∀ d cls ks, step (final init evs) (.mk p n d cls ks) = (final init evs, .inUse))
     ∧ (∀ c', ((final init evs).caches c').ident = (p, n) →
-          (step (final init evs) (.add c')).1 = final init evs ∧ (step (final init evs) (.add c')).2 ≠ .added c')
+          (step (final init evs) (.add c')).2 ≠ .added c'
+          ∧ (step (final init evs) (.add c')).1.ids = (final init evs).ids
+          ∧ ((final init evs).shutdown = false → (step (final init evs) (.add c')).1 = final init evs))
     ∧ (∀ c', outstanding (final init evs) c' → ((final init evs).caches c').ident = (p, n) → c' = c) := by
-  have h := reach_inv evs
-  have hc := h.idsOk _ _ hout
   refine ⟨?_, ?_, ?_⟩
   · intro d cls ks
     simp [step, mkCache, hout]
   · intro c' hid
-    have hsd : (final init evs).shutdown = false := by
-      cases hs : (final init evs).shutdown with
-      | false => rfl
-      | true => have := (h.sdOk hs).1; rw [this] at hout; simp at hout
-    simp only [step, cancelPending]
-    repeat' split
-    all_goals simp_all
+    refine ⟨?_, ?_, ?_⟩
+    all_goals
+      simp only [step]
+      repeat' split
+      all_goals simp_all
   · intro c' ho hid
-    have := h.taskOk c' ho
-    rw [hid, hout] at this
-    exact (Option.some.inj this).symm
+    have ho' : lookup ((final init evs).caches c').ident (final init evs).ids = some c' := ho
+    rw [hid, hout] at ho'
+    exact (Option.some.inj ho').symm
+
+/-- A FREE IDENTITY CAN BE REGISTERED.  In every reachable state that is not shut down: adding a constructed cache with
+    a legal delay whose identity is free, and which is not the cache whose own on_timeout is executing, IS answered
+    `added` (it cannot be refused as duplicate, and `register_task` cannot raise).  In particular right after a claim
+    the identity is free again: the response handler may register a follow-up request under the same (prefix, number). -/
+theorem free_identity_is_registrable (evs : List Ev) (c' : Nat) :
+    let s := final init evs
+    (c' < s.n → Gen.minDelayExclusiveMs < (s.caches c').delay → s.shutdown = false →
+        lookup (s.caches c').ident s.ids = none → s.running ≠ some c' → (step s (.add c')).2 = .added c')
+    ∧ (∀ p n c, (step s (.pop p n)).2 = .claimed c → lookup (p, n) (step s (.pop p n)).1.ids = none) := by
+  intro s
+  have h := reach_inv evs
+  refine ⟨?_, ?_⟩
+  · intro hc hd hs hl hr
+    have hn : ¬ s.n ≤ c' := by omega
+    have hd' : ¬ (s.caches c').delay ≤ Gen.minDelayExclusiveMs := by omega
+    have ht : (s.caches c').task = none := by
+      cases ht : (s.caches c').task with
+      | none => rfl
+      | some dl =>
+        have hsome : (s.caches c').task.isSome = true := by rw [ht]; rfl
+        have := h.taskOk c' hsome
+        rw [hl] at this; cases this
+    have hnt : nameTaken s c' = false := by
+      simp only [nameTaken, ht, Option.isSome_none, Bool.false_or, Bool.and_eq_false_imp, beq_iff_eq]
+      intro hrun; exact absurd hrun hr
+    simp [step, hn, hd', hs, hl, hnt]
+  · intro p n c hp
+    simp only [step] at hp ⊢
+    split at hp
+    · cases hp
+    · simp [cancelPending_ids, lookup_erase]
 
 /-- RE-REGISTRATION FROM INSIDE on_timeout.  (a) An `add` that raises ("Task already exists": the cache's own timeout
     task is still registered) or is refused as duplicate changes nothing — in particular it leaves no identifier
@@ -177,13 +212,15 @@ theorem futures_completed_on_timeout (s : St) (c : Nat) (hr : s.running = some c
       exact complete_not_pending g
     · intro f hf; simp [Fut.complete, hf]
 
-/-- SHUTDOWN IS FINAL.  After an accepted shutdown: the managed futures of every request that was outstanding are
-    cancelled (none pending); in every continuation no timeout fires and nothing is registered; and every `add` of a
-    constructed cache with a legal delay is dropped with its managed futures cancelled. -/
+/-- SHUTDOWN IS FINAL.  After an accepted `RequestCache.shutdown()` — whatever happened before, including an earlier
+    `shutdown_task_manager()` on the same object: the managed futures of every request that was still registered are
+    cancelled (none pending); the table is empty and stays empty; in every continuation no timeout fires and nothing is
+    registered; and every `add` of a constructed cache with a legal delay is dropped with its futures cancelled. -/
 theorem shutdown_final (evs1 : List Ev) (hacc : (step (final init evs1) .shutdown).2 = .done) :
     let s1 := (step (final init evs1) .shutdown).1
     (∀ c, outstanding (final init evs1) c → ∀ f ∈ (s1.caches c).futs, f.st ≠ .pending)
-    ∧ (∀ evs2 c, Reply.timedOut c ∉ trace s1 evs2 ∧ Reply.added c ∉ trace s1 evs2)
+    ∧ (∀ evs2, (final s1 evs2).ids = [] ∧ ∀ c, ¬ outstanding (final s1 evs2) c)
+    ∧ (∀ evs2 c, Reply.timedOut c ∉ trace s1 evs2 ∧ Reply.added c ∉ trace s1 evs2 ∧ Reply.claimed c ∉ trace s1 evs2)
     ∧ (∀ evs2 c, c < (final s1 evs2).n → Gen.minDelayExclusiveMs < ((final s1 evs2).caches c).delay →
           (step (final s1 evs2) (.add c)).2 = .droppedShutdown
           ∧ ∀ f ∈ ((step (final s1 evs2) (.add c)).1.caches c).futs, f.st ≠ .pending) := by
@@ -197,20 +234,32 @@ theorem shutdown_final (evs1 : List Ev) (hacc : (step (final init evs1) .shutdow
     simp [s1, final_append, final_cons, final_nil]
   have h1 : Inv s1 := by rw [hfin]; exact reach_inv _
   have hsd : s1.shutdown = true := by simp [s1, step, hrun]
-  refine ⟨?_, ?_, ?_⟩
+  have hids : s1.ids = [] := by simp [s1, step, hrun]
+  have hempty : ∀ evs2, (final s1 evs2).ids = [] := fun evs2 => run_empty_after_shutdown s1 evs2 hsd hids
+  refine ⟨?_, ?_, ?_, ?_⟩
   · intro c ho f hf
-    have hl := h0.taskOk c ho
-    have hv := lookup_hasVal hl
+    have hv := lookup_hasVal (show lookup _ _ = some c from ho)
     simp only [s1, step, hrun, Option.isSome_none, Bool.false_eq_true, if_false, hv, if_true,
       Cache.cancelFuts, List.mem_map] at hf
     obtain ⟨g, _, rfl⟩ := hf
     exact cancel_not_pending g
+  · intro evs2
+    refine ⟨hempty evs2, fun c ho => ?_⟩
+    have ho' : lookup _ (final s1 evs2).ids = some c := ho
+    rw [hempty evs2] at ho'
+    simp at ho'
   · intro evs2 c
-    exact run_after_shutdown s1 evs2 h1 hsd c
+    have h2 := run_after_shutdown s1 evs2 h1 hsd c
+    refine ⟨h2.1, h2.2, ?_⟩
+    have hno : ¬ outstanding (final init (evs1 ++ [.shutdown])) c := by
+      rw [← hfin]; intro ho
+      have ho' : lookup _ s1.ids = some c := ho
+      rw [hids] at ho'; simp at ho'
+    have := resolved_is_final (evs1 ++ [.shutdown]) evs2 c hno (by rw [← hfin]; exact h2.2)
+    rw [← hfin] at this
+    exact this.1
   · intro evs2 c hc hd
-    have h2 := run_inv s1 evs2 h1
     have hs2 := run_shutdown_mono s1 evs2 hsd
-    obtain ⟨_, _, hr2⟩ := h2.sdOk hs2
     have hd' : ¬ ((final s1 evs2).caches c).delay ≤ Gen.minDelayExclusiveMs := by omega
     have hc' : ¬ (final s1 evs2).n ≤ c := by omega
     refine ⟨by simp [step, hc', hd', hs2], ?_⟩
@@ -218,6 +267,45 @@ theorem shutdown_final (evs1 : List Ev) (hacc : (step (final init evs1) .shutdow
     simp [step, hc', hd', hs2, Cache.cancelFuts] at hf
     obtain ⟨g, _, rfl⟩ := hf
     exact cancel_not_pending g
+
+/-- THE INHERITED SHUTDOWN.  After `shutdown_task_manager()` was called on the request cache object (same `_shutdown`
+    flag): in every continuation no timeout fires and nothing is registered; the requests that were outstanding stay
+    in the table — each can still be claimed at most once — until `RequestCache.shutdown()` runs, which is then still
+    accepted and does everything `shutdown_final` says (its futures clause covers exactly those requests). -/
+theorem task_manager_shutdown_then_shutdown (evs1 evs2 : List Ev)
+    (hacc : (step (final init evs1) .tmShutdown).2 = .done) :
+    let s1 := (step (final init evs1) .tmShutdown).1
+    (∀ c, Reply.timedOut c ∉ trace s1 evs2 ∧ Reply.added c ∉ trace s1 evs2)
+    ∧ (∀ c, outstanding (final init evs1) c → outstanding s1 c)
+    ∧ ((final s1 evs2).running = none ∧ (step (final s1 evs2) .shutdown).2 = .done)
+    ∧ (∀ c, outstanding (final s1 evs2) c →
+          ∀ f ∈ ((step (final s1 evs2) .shutdown).1.caches c).futs, f.st ≠ .pending)
+    ∧ (step (final s1 evs2) .shutdown).1.ids = [] := by
+  intro s1
+  have hrun : (final init evs1).running = none := by
+    cases hr : (final init evs1).running with
+    | none => rfl
+    | some r => simp [step, hr] at hacc
+  have hfin : s1 = final init (evs1 ++ [.tmShutdown]) := by
+    simp [s1, final_append, final_cons, final_nil]
+  have h1 : Inv s1 := by rw [hfin]; exact reach_inv _
+  have hsd : s1.shutdown = true := by
+    simp only [s1, step, hrun, Option.isSome_none, Bool.false_eq_true, if_false]
+    split <;> simp_all
+  have h2 := run_inv s1 evs2 h1
+  have hs2 := run_shutdown_mono s1 evs2 hsd
+  have hr2 : (final s1 evs2).running = none := (h2.sdOk hs2).2
+  have hacc2 : (step (final s1 evs2) .shutdown).2 = .done := by simp [step, hr2]
+  have hall : final s1 evs2 = final init (evs1 ++ [.tmShutdown] ++ evs2) := by rw [final_append, ← hfin]
+  refine ⟨fun c => run_after_shutdown s1 evs2 h1 hsd c, ?_, ⟨hr2, hacc2⟩, ?_, by simp [step, hr2]⟩
+  · intro c ho
+    simp only [s1, step, hrun, Option.isSome_none, Bool.false_eq_true, if_false]
+    split
+    · exact ho
+    · exact ho
+  · intro c ho
+    rw [hall] at ho hacc2 ⊢
+    exact (shutdown_final _ hacc2).1 c ho
 
 /-- A managed future that is done (completed by a timeout, cancelled by shutdown, resolved by its consumer) keeps that
     state under every later event: "completed on timeout" and "cancelled on shutdown" are permanent. -/
@@ -320,12 +408,12 @@ theorem find_unclaimed_sound (s : St) (p : Nat) (cands : List Nat) (d : Option N
 theorem exactly_once (evs1 evs2 : List Ev) (c : Nat)
     (hnodrop : NoDropWhileOutstanding (final init evs1) c evs2) :
     (trace (final init evs1) evs2).count (.claimed c) + (trace (final init evs1) evs2).count (.timedOut c)
-        + (if ((final init (evs1 ++ evs2)).caches c).task.isSome = true then 1 else 0)
+        + (if outstanding (final init (evs1 ++ evs2)) c then 1 else 0)
       = (trace (final init evs1) evs2).count (.added c)
-        + (if ((final init evs1).caches c).task.isSome = true then 1 else 0) := by
+        + (if outstanding (final init evs1) c then 1 else 0) := by
   have h := run_count_eq' (final init evs1) evs2 c (reach_inv evs1) hnodrop
   rw [← final_append] at h
-  simpa only [outN] using h
+  simpa only [outN, outstanding] using h
 
 /-- PROGRESS.  The two things the environment can always do for a due request, in every reachable state:
     (a) if no on_timeout is executing and c's timer is due (`deadline ≤ now`), the timeout of c is enabled — `fireBegin c`
@@ -365,45 +453,42 @@ theorem timeout_enabled_when_due (evs : List Ev) (c : Nat) :
     | none => simp [ht] at hmem
     | some dl => exact ⟨dl, rfl, by simpa [ht] using hmem.2⟩
 
-/-- THE PROPERTY, in one statement.  For every history and every cache object c:
+/-- THE PROPERTY, in one statement (a conjunction of the theorems above, for reading convenience).  For every
+    history and every cache object c:
     (1) claims + timeouts never exceed registrations, with equality up to "still outstanding" when clear/shutdown never
         hit c while it was outstanding;
-    (2) c is outstanding exactly while the table maps its identity to it, and then no other object with that identity
-        is outstanding;
-    (3) an outstanding request has not passed its deadline (its timeout is due exactly at the deadline);
-    (4) once shut down, nothing is outstanding. -/
+    (2) while no shutdown of either kind has happened, c is outstanding exactly while a timer is waiting for it, and no
+        other object with that identity is outstanding;
+    (3) a waiting timer has not passed its deadline (its timeout is due exactly at the deadline);
+    (4) once shut down (either way) no timer is left. -/
 theorem each_request_resolved_exactly_once (evs : List Ev) (c : Nat) :
     let s := final init evs
     let tr := trace init evs
     (tr.count (.claimed c) + tr.count (.timedOut c) ≤ tr.count (.added c))
     ∧ (NoDropWhileOutstanding init c evs →
-         tr.count (.claimed c) + tr.count (.timedOut c) + (if (s.caches c).task.isSome = true then 1 else 0)
-           = tr.count (.added c))
-    ∧ (outstanding s c ↔ lookup (s.caches c).ident s.ids = some c)
+         tr.count (.claimed c) + tr.count (.timedOut c) + (if outstanding s c then 1 else 0) = tr.count (.added c))
+    ∧ (s.shutdown = false → (outstanding s c ↔ (s.caches c).task.isSome = true))
     ∧ (∀ c', outstanding s c → outstanding s c' → (s.caches c').ident = (s.caches c).ident → c' = c)
     ∧ (∀ dl, (s.caches c).task = some dl → s.now ≤ dl)
-    ∧ (s.shutdown = true → ¬ outstanding s c) := by
+    ∧ (s.shutdown = true → (s.caches c).task = none) := by
   intro s tr
   have h := reach_inv evs
   have hex : NoDropWhileOutstanding init c evs →
-      tr.count (.claimed c) + tr.count (.timedOut c) + (if (s.caches c).task.isSome = true then 1 else 0)
-        = tr.count (.added c) := by
+      tr.count (.claimed c) + tr.count (.timedOut c) + (if outstanding s c then 1 else 0) = tr.count (.added c) := by
     intro hnd
     have := exactly_once [] evs c hnd
     simp only [List.nil_append, final_nil] at this
-    have h0 : ((init.caches c).task.isSome = true) = False := by simp [init]
+    have h0 : outstanding init c = False := by simp [outstanding, init]
     simp only [h0, if_false, Nat.add_zero] at this
     exact this
-  refine ⟨at_most_once evs c, hex, outstanding_iff_registered evs c, ?_, ?_, ?_⟩
+  refine ⟨at_most_once evs c, hex, (outstanding_iff_timer_waiting evs c).2, ?_, ?_, ?_⟩
   · intro c' ho ho' hid
-    have hl := h.taskOk c ho
-    exact (unique_identity evs _ _ c (by simpa [Cache.ident] using hl)).2.2 c' ho' (by simpa [Cache.ident] using hid)
+    have h1 : lookup (s.caches c).ident s.ids = some c := ho
+    have h2 : lookup (s.caches c').ident s.ids = some c' := ho'
+    rw [hid, h1] at h2
+    exact (Option.some.inj h2).symm
   · intro dl ht; exact h.timeOk c dl ht
-  · intro hs ho
-    have hnone : (s.caches c).task = none := (h.sdOk hs).2.1 c
-    have ho' : (s.caches c).task.isSome = true := ho
-    rw [hnone] at ho'
-    cases ho'
+  · intro hs; exact (h.sdOk hs).1 c
 
 /-! ### rules R1/R2 at the level of asyncio.Task (AsyncTask.lean: a transcription of Task.cancel / __step / the sleep
     future of delay_runner).  For every sequence of loop steps, timer callbacks, body ends and cancel() calls on one
@@ -634,6 +719,14 @@ example : ((final init [.mk 0 1 (some 250) 0 [false, true], .add 0, .tick 250, .
 example : NoDropWhileOutstanding (final init [.mk 0 1 (some 250) 0 [], .add 0, .clear]) 1
     [.mk 0 1 (some 250) 0 [], .clear, .add 1, .pop 0 1] := by
   refine ⟨by decide, by decide, by decide, by decide, trivial⟩
+/-- teardown glue: `shutdown_task_manager()` first (timers die, requests stay claimable), then `shutdown()` cancels
+    the futures and empties the table; a timeout never fires in between -/
+example : trace init [.mk 0 1 (some 250) 0 [false], .mk 0 2 (some 250) 0 [true], .add 0, .add 1, .tmShutdown,
+                      .tick 500, .fireBegin 0, .pop 0 1, .get 0 2, .shutdown, .get 0 2]
+    = [.okMk 0 1, .okMk 1 2, .added 0, .added 1, .done, .overdue [], .refused, .claimed 0, .got (some 1), .done,
+       .got none] := by decide
+example : ((final init [.mk 0 2 (some 250) 0 [true], .add 0, .tmShutdown, .shutdown]).caches 0).futs.map (·.st)
+    = [.cancelled] := by decide
 /-- clear drops an outstanding request: its timer never fires, a late pop finds nothing -/
 example : trace init [.mk 0 1 (some 1000) 0 [false], .add 0, .clear, .tick 1000, .fireBegin 0, .pop 0 1]
     = [.okMk 0 1, .added 0, .done, .overdue [], .refused, .keyError] := by decide
